@@ -250,15 +250,26 @@ theorem fetchComponent_ne_fuel (w : World) (h : String × String → Nat) (H : N
                       simp only []
                       have := hH (url, kc.name)
                       exact ih _ url kc (by omega) ⟨us', cs', hlk', findC_mem hk⟩
-                  · apply allR_ne_fuel
-                    intro un _
-                    cases hu : findU us' un with
-                    | none => simp
-                    | some uu =>
-                      simp only []
-                      have h1 := mu_nil_le w (path ++ [cur]) url
-                      have h2 : muF w (path ++ [cur]) url ≤ muF w (path ++ [cur]) url * (H + 1) := Nat.le_mul_of_pos_right _ (by omega)
-                      exact fetchUnits_ne_fuel n w _ url uu (by omega)
+                  · apply seqR_ne_fuel
+                    · apply allR_ne_fuel
+                      intro un _
+                      cases hu : findU us' un with
+                      | none => simp
+                      | some uu =>
+                        simp only []
+                        have h1 := mu_nil_le w (path ++ [cur]) url
+                        have h2 : muF w (path ++ [cur]) url ≤ muF w (path ++ [cur]) url * (H + 1) := Nat.le_mul_of_pos_right _ (by omega)
+                        exact fetchUnits_ne_fuel n w _ url uu (by omega)
+                    · split
+                      · simp
+                      · apply allR_ne_fuel
+                        intro k hk
+                        cases hfk : findC cs k with
+                        | none => simp
+                        | some kc =>
+                          simp only []
+                          have := hr.2 cur us cs c k kc hlk hc hk hfk
+                          exact ih path cur kc (by omega) ⟨us, cs, hlk, findC_mem hfk⟩
 
 theorem muF_le (w : World) (cur : String) : muF w [] cur ≤ 2 * w.length + 1 := by
   unfold muF
